@@ -23,7 +23,7 @@ META = {
         "NOT decided: that needs execution or a solver (DESIGN section 6)."),
     "trusted_base": ["eyeball_im::VectorDiff::apply (C18)", "imbl::Vector", "rustc MIR construction"],
     "assumptions": [],
-    "not_decided": "equality of the rebuilt view with the source slice and applicability of every emitted diff for all integer values of limit/count/len/index (arithmetic)",
+    "not_decided": "the identity of every single item of the rebuilt view (lengths, emitted indices and refill positions are decided for all integer values by R09.10 - R09.15; that the forwarded values themselves are the right ones follows from the replica being updated first, R09.3)",
 }
 META["technique"] = "static analysis: dominance / provenance / typestate rules over rustc MIR facts (rustc_private driver) + path-partitioned abstract interpretation in a linear-inequality domain (view-length balance; Fourier-Motzkin emptiness, no execution, no external solver)"
 META["explanation"] += " R09.11 imbl's asserting partial calls (take / split_at / split_off / slice) in the Head, Tail, Skip modules take a position bounded by the vector's length, never one made of the limit / count alone (it panics for a limit beyond the length)."
